@@ -116,10 +116,14 @@ func (sc *RangeScanner) Scan() bool {
 	// three parts are counted separately so that the reported range always
 	// covers exactly the bytes of the token.
 	for i, part := range [][]byte{adv[:tokStart], adv[tokStart:tokEnd], adv[tokEnd:]} {
-		gsc := bufio.NewScanner(bytes.NewReader(part))
-		gsc.Split(textseg.ScanGraphemeClusters)
-		for gsc.Scan() {
-			gr := gsc.Bytes()
+		for len(part) > 0 {
+			// (scanning the slice directly: a bufio.Scanner would allocate a
+			// buffer for each of the three parts of every token)
+			n, gr, err := textseg.ScanGraphemeClusters(part, true)
+			if err != nil || n <= 0 {
+				break
+			}
+			part = part[n:]
 			new.Byte += len(gr)
 			new.Column++
 
